@@ -782,5 +782,14 @@ for r, what in (('R131', 'mixture_model_utils / cacgmm / cACG'), ('R132', 'cwmm 
     undecided = {'R132': ['C02', 'C03', 'C07'], 'R133': ['C01', 'C02', 'C03', 'C05', 'C06', 'C07', 'C08', 'C09'], 'R134': ['C10'], 'R135': ['C14', 'C15', 'C16'], 'R136': ['C19']}.get(r, [])
     C.append(dict(id=f'N25-{r}-optim', kind='neutral', properties=ALLP, note=f'independent correct optimisations of {what}', patch=f'neutral_patches/{r}.patch', edits=[],
                   inconclusive_ok=undecided))
+# N26: campaign 13 ("harden": robustness / API-consistency clean-ups done consistently across functions): helpers extracted from two callers, keepdims / conjugation / floor conventions moved
+#      between callee and callers, private keywords renamed at every call site, None sentinels resolved to the old default, internal layouts changed at producer and consumers, namedtuple returns
+for r, what in (('R141', 'mixture_model_utils / cacgmm / cACG'), ('R142', 'cwmm / cbmm / Watson / Bingham / distribution.utils'), ('R143', 'gmm / gaussian / vMF / gcacgmm / vmfcacgmm'),
+                ('R144', 'beamformer / beamformer_wrapper / math.solve'), ('R145', 'permutation_alignment / initializers'), ('R146', 'mask_module / sxr_module / si_sdr / utils')):
+    # R142: the scatter contraction of the Watson / Bingham component trainers moved into a shared helper of distribution.utils (anchor of the estimator rules not found: analysis error, exit 2),
+    # the default gap of _remove_duplicate_eigenvalues is a None sentinel; R145: the greedy picks are recorded class-axis-last in a helper and converted by the caller
+    undecided = {'R142': ['C02', 'C03', 'C07', 'C08'], 'R145': ['C14', 'C15']}.get(r, [])
+    C.append(dict(id=f'N26-{r}-harden', kind='neutral', properties=ALLP, note=f'independent correct cross-function clean-ups of {what}', patch=f'neutral_patches/{r}.patch', edits=[],
+                  inconclusive_ok=undecided))
 out.write_text(json.dumps(C, indent=1))
 print(len(C), 'variants ->', out)
